@@ -18,7 +18,9 @@ starts with schema validation and takes dict entries.
 Optional "shape" (default "int1") picks what the rows ARE - SHAPES: rows of no columns, falsy cells (0, False, "", 0.0,
 None, -0.0, b""), equal-but-different cells (1, True, 1.0, Decimal(1)), all rows identical, all-None two-column rows,
 two-column rows - and optional "ctor" how the frame is built: "rows" (default), "dicts" (DataFrame(dictionaries=[...]),
-rows become Row instances), "select" (lazy: a projection of a two-column frame onto the shape's columns).  A row is
+rows become Row instances), "select" (lazy: a projection of a two-column frame onto the shape's columns), "filter" /
+"take" (lazy: the rows kept by a mask / an index list out of a frame twice as long), "arrow" (lazy: DataFrame.from_arrow
+over several Arrow tables; "chunks": [rows per table, zeros allowed] sums to n, "tables_as": "list" | "gen").  A row is
 then identified by the integer _rid gives its VALUE, so rows may share an id (the model is over arbitrary lists).
 Observed: one entry per op: ["row", id|None] | ["rows", [ids]] | ["unit"] | ["raise", exc]
   | ["append", returned_normally, length of the row store right after the call | None, exc|None]
@@ -47,8 +49,8 @@ LEVEL_NOTE = ("Trusted: Coq kernel + vm_compute; the hand-written model of _curs
               "No axioms (Print Assumptions: closed).")
 DESIGN_REF = "DESIGN.md section 8, C04"
 COQ_IMPORTS = "From Orso Require Import Model.C04."
-COQ_CHECKS = {"hist": "c04_check", "sess": "c04_scheck"}
-COQ_SHOW = {"hist": "c04_show", "sess": "c04_sshow"}
+COQ_CHECKS = {"hist": "c04_check", "sess": "c04_scheck", "chunk": "c04_ccheck"}
+COQ_SHOW = {"hist": "c04_show", "sess": "c04_sshow", "chunk": "c04_cshow"}
 RULE = ("histories over {fetchone, fetchmany(k), fetchmany(), fetchall, arraysize change, real read-only observers (each with a pool of "
         "argument values, 'no limit' values included; what they report is recorded), append, "
         "append of an entry that makes append raise (rejected by validation / by the row factory / by Row.nbytes)} "
@@ -216,7 +218,16 @@ SAFE_DERIVERS = ["slice", "head", "tail", "query"]
 # (shape, ctor) of the materialised / of the lazily backed frames enumerated beside the default one
 EAGER_SHAPES = [("empty0", "rows"), ("empty0", "dicts"), ("falsy1", "rows"), ("equal1", "dicts"), ("dup1", "rows"),
                 ("none2", "rows"), ("wide2", "dicts")]
-LAZY_SHAPES = [("empty0", "rows"), ("empty0", "select"), ("int1", "select"), ("falsy1", "rows"), ("dup1", "rows")]
+LAZY_SHAPES = [("empty0", "rows"), ("empty0", "select"), ("int1", "select"), ("falsy1", "rows"), ("dup1", "rows"),
+               ("int1", "filter"), ("int1", "take"), ("wide2", "filter")]
+
+
+def _chunkings(total_max, tables_max):
+    """every way of spreading 0..total_max rows over 1..tables_max tables, empty tables allowed anywhere"""
+    for k in range(1, tables_max + 1):
+        for sizes in itertools.product(range(0, total_max + 1), repeat=k):
+            if sum(sizes) <= total_max:
+                yield list(sizes)
 
 
 def _derive_args(n, shape="int1"):
@@ -437,7 +448,27 @@ def observe(case):
     rows = [mkrow(i) for i in range(n)]
     rel = _schema_kind(case) == "relation"
     ctor = case.get("ctor") or "rows"
-    if ctor == "select":
+    if ctor == "arrow":
+        # second entry point for a lazily backed frame: several Arrow tables behind converters._RowsIterator
+        import pyarrow
+
+        asch = pyarrow.schema([("a", pyarrow.int64())])
+        chunks = case.get("chunks") or [n]
+        if sum(chunks) != n or shape != "int1":
+            raise KeyError("chunks must sum to n (int1 rows)")
+        tables, at = [], 0
+        for c in chunks:
+            tables.append(pyarrow.Table.from_pydict({"a": list(range(at, at + c))}, schema=asch))
+            at += c
+        df = DataFrame.from_arrow((t for t in tables) if case.get("tables_as") == "gen" else tables)
+    elif ctor in ("filter", "take"):
+        # the case's rows are every second row of a longer materialised frame
+        src = []
+        for r in rows:
+            src += [r, (-50,) * len(r)]
+        big = DataFrame(rows=src, schema=list(names))
+        df = big.filter([i % 2 == 0 for i in range(len(src))]) if ctor == "filter" else big.take([2 * i for i in range(n)])
+    elif ctor == "select":
         # a projection of a two-column frame onto the shape's columns: lazily backed by design
         wide = DataFrame(rows=[(i, str(i)) for i in range(n)], schema=["a", "b"])
         df = wide.select(list(names))
@@ -693,6 +724,14 @@ def to_coq(case, outs):
             return None   # row(i) with no such row: outside the model
     ctr = {"good": 0, "bad": 0, "shape": _shape(case)}
     base = "(%s : list Z)" % L.lst(L.Z(i) for i in _canon_rows(case))
+    if not _is_session(case) and case.get("ctor") == "arrow":
+        ops = [_coq_op(op, ctr) for op in case["ops"]]
+        cobs = [_coq_out(o) for o in outs]
+        ids, at, cs = _canon_rows(case), 0, []
+        for c in case.get("chunks") or [case["n"]]:
+            cs.append("(%s : list Z)" % L.lst(L.Z(i) for i in ids[at:at + c]))
+            at += c
+        return ("chunk", "((%s : list (list Z)), (%s : list (op Z)), (%s : list (out Z)))" % (L.lst(cs), L.lst(ops), L.lst(cobs)))
     if not _is_session(case):
         ops = [_coq_op(op, ctr) for op in case["ops"]]
         cobs = [_coq_out(o) for o in outs]
@@ -724,7 +763,8 @@ def nontrivial_key(case, outs):
     delivered = any((o[0] == "row" and o[1] is not None) or (o[0] == "rows" and o[1]) for o in outs)
     if not delivered:
         return None
-    return repr((case["lazy"], case.get("seq"), case.get("schema"), case.get("shape"), case.get("ctor"), case["n"], case["ops"]))
+    return repr((case["lazy"], case.get("seq"), case.get("schema"), case.get("shape"), case.get("ctor"), case.get("chunks"),
+                 case.get("tables_as"), case["n"], case["ops"]))
 
 
 def classify(case, outs):
@@ -732,6 +772,11 @@ def classify(case, outs):
     if case.get("schema") == "relation":
         yield "relation-schema"
     yield "shape:" + _shape(case) + ("/" + case["ctor"] if case.get("ctor") else "")
+    if case.get("ctor") == "arrow":
+        ch = case.get("chunks") or [case["n"]]
+        yield "arrow-tables=%d" % min(len(ch), 4)
+        if any(c == 0 and any(ch[:i]) and any(ch[i + 1:]) for i, c in enumerate(ch)):
+            yield "arrow-empty-table-between-rows"
     if _is_session(case):
         yield "session"
     yield "rows=%d" % min(case["n"], 4) + ("+" if case["n"] > 4 else "")
@@ -826,6 +871,33 @@ def _session_scripts(n):
     yield [one(0, ["append"]), one(1, ["obs", "rowcount", []]), one(1, ["fetchmany", 1]), one(1, ["fetchall"]), one(0, ["fetchone"])]
 
 
+def _arrow_exhaustive(sdepth, bad):
+    # a lazily backed frame fed by several Arrow tables (from_arrow): every spreading of 0..3 rows over 1..3 tables,
+    # empty tables anywhere, all cursor-only histories; then longer frames read to the end and beyond
+    k = 0
+    for chunks in _chunkings(3, 3):
+        n = sum(chunks)
+        for d in range(1, sdepth + 1):
+            alpha = [o for o in _alphabet(n, itertools.cycle(PURE_OBS), bad)
+                     if o != ["fetchmany", 2] and o[0] != "append" and o != ["obs", "column_names"]]
+            for hist in itertools.product(alpha, repeat=d):
+                k += 1
+                yield {"lazy": True, "n": n, "ctor": "arrow", "chunks": chunks, "tables_as": "gen" if k % 2 else "list",
+                       "ops": [list(o) for o in hist]}
+    scripts = [
+        [["fetchall"], ["fetchone"], ["fetchmany", 3], ["fetchall"]],
+        [["fetchone"]] * 8,
+        [["fetchmany", 2]] * 5,
+        [["arraysize", 4], ["fetchmany", None], ["fetchmany", None], ["fetchmany", None]],
+        [["fetchone"], ["fetchmany", 2], ["fetchall"], ["fetchone"]],
+        [["fetchmany", 3], ["fetchmany", 3], ["fetchmany", 3], ["fetchone"]],
+    ]
+    for chunks in ([3, 0, 2], [0, 3, 0, 0, 2, 0], [1, 0, 0, 1], [0, 0, 2], [2, 0], [5], [1, 1, 1, 1, 1], [0], [0, 0]):
+        for sc in scripts:
+            for how in ("list", "gen"):
+                yield {"lazy": True, "n": sum(chunks), "ctor": "arrow", "chunks": chunks, "tables_as": how, "ops": [list(o) for o in sc]}
+
+
 def exhaustive(tier):
     depth = 3 if tier == "quick" else 4
     rdepth = 2 if tier == "quick" else 3
@@ -894,13 +966,17 @@ def exhaustive(tier):
                     for hist in itertools.product(alpha, repeat=d):
                         yield _shaped({"lazy": True, "n": n, "ops": [list(o) for o in hist]}, shape, ctor)
 
+        yield from _arrow_exhaustive(sdepth, bad)
+
     return it(), (f"all eager histories of depth <= {depth} over the 12-letter alphabet (fetches, arraysize, observers, append, failing append) "
                   f"on frames of 0..3 rows (list-backed; tuple-backed without append calls to depth 2; RelationSchema-backed to depth {rdepth}); "
                   "every observer x every argument value of its pool x every cursor position; every frame-returning call "
                   "(slice/head/tail over their argument pools, query, distinct) x cursor position 0/1 x 4 session scripts using the frame handed back; "
                   f"all histories of depth <= {2 if tier == 'quick' else 3} on frames of 0..3 rows of every other row shape "
                   "(no columns; falsy / None / equal-but-different cells; identical rows; two columns; built from rows or from dicts) "
-                  "and on lazily backed frames of those shapes (generator, select() projection)")
+                  "and on lazily backed frames of those shapes (generator, select() / filter() / take() views); "
+                  "from_arrow frames: every spreading of 0..3 rows over 1..3 tables (empty tables anywhere) x all cursor-only "
+                  "histories of that depth, and 9 longer table layouts x 6 read-to-the-end-and-beyond scripts")
 
 
 def _random_obs(rng, n, lazy, shape="int1"):
@@ -937,8 +1013,17 @@ def _random_case(rng, lazy, schema="names", shape="int1", ctor="rows"):
     return _shaped(c, shape, ctor)
 
 
+def _arrow_case(rng):
+    chunks = [rng.choice([0, 0, 1, 2, 3, 4]) for _ in range(rng.randint(1, 5))]
+    c = _random_case(rng, lazy=True)
+    c.update({"n": sum(chunks), "ctor": "arrow", "chunks": chunks, "tables_as": rng.choice(["list", "gen"])})
+    return c
+
+
 def _shape_case(rng):
-    """a frame whose rows are not distinct one-column integer rows"""
+    """a frame whose rows are not distinct one-column integer rows, or a lazily backed one that comes from another entry point"""
+    if rng.random() < 0.3:
+        return _arrow_case(rng)
     if rng.random() < 0.35:
         shape, ctor = rng.choice(LAZY_SHAPES)
         return _random_case(rng, lazy=True, shape=shape, ctor=ctor)
